@@ -18,7 +18,8 @@ Record bstate := { s_charge : Q; s_power : Q }.
 Inductive bop :=
 | Charge (pilot V T n1 n2 : Q)
 | Reset (x : option Q)
-| Roundtrip.            (* obj = cls.from_json(obj.to_json()): hand-modelled as the identity on the object's state *)
+| Roundtrip.            (* obj = cls.from_json(obj.to_json()) or obj = copy.deepcopy(obj) (directly, through an EV or a list
+                           of EVs): hand-modelled as the identity on the object's state and parameters *)
 
 Record bres := { r_err : option string; r_rate : Q; r_state : bstate }.
 
